@@ -422,11 +422,18 @@ def rule_c02(an, res):
                     if not ok_f:
                         continue
                     check_balance(res, prop, cm, roles, m, seg)
+                    check_bind_dominated(res, prop, cm, roles, m, seg)
                     if roles.counter is not None:
                         check_bound(res, prop, cm, roles, m, seg)
                     check_no_resize(res, prop, cm, roles, m, seg)
                 if roles.kind == 'maplist' and k in ('INSERT', 'ERASE', 'FIND', 'CLEAN'):
                     check_purge_first(res, prop, cm, roles, m, top)
+                    from rules_ttl import check_purge_shape
+                    check_purge_shape(res, prop, cm, roles, m, top)
+        if roles.kind == 'maplist':
+            # size() == number of live keys right after a call needs the purge to be complete: the ttl list must be deadline-ordered
+            from rules_ttl import check_ord_witness_B
+            check_ord_witness_B(an, res, prop, cm, roles)
         check_ctor_capacity(an, res, prop, cm, roles)
 
 
@@ -526,6 +533,24 @@ def check_bound(res, prop, cm, roles, m, seg):
             if not lo_ok:
                 V(res, prop, 'R-BOUND', cm, where_of(m, seg), 'counter may drop below zero (decrement not dominated by a non-empty / present test)',
                   e.site, 'on path [%s] size can reach %+d' % (' '.join(seg.valuation()), lo + e.delta))
+
+
+def check_bind_dominated(res, prop, cm, roles, m, seg):
+    """R-BIND-DOMINATED: an index insertion only inserts when the key is absent; it must be dominated by a failed presence test for the
+    very key it binds (emplace on a present key does nothing, but the counter / partition / aux structures would still move)"""
+    for b in seg.effs('BIND'):
+        s2 = seg
+        ok = False
+        while s2 is not None and not ok:
+            for c in s2.conds_of('PRESENT'):
+                if c[2] is False and c[1][0] == b.key:
+                    ok = True
+            s2 = s2.parent if s2.loop is None else None     # a test outside the loop says nothing about this iteration's key
+        res.ob('R-BIND-DOMINATED', ok=ok)
+        if not ok:
+            V(res, prop, 'R-BIND-DOMINATED', cm, where_of(m, seg), 'index insertion not dominated by a failed lookup of the same key', b.site,
+              'path [%s] binds %s without having established that it is absent: for a present key (e.g. a duplicate in a range) emplace '
+              'inserts nothing while the counter and slot bookkeeping still advance' % (' '.join(seg.valuation()), show(b.key)))
 
 
 def check_no_resize(res, prop, cm, roles, m, seg):
@@ -655,6 +680,9 @@ def rule_c03(an, res):
                     if not ok_f:
                         continue
                     check_removals(res, prop, cm, roles, m, k, seg)
+                    if roles.name == 'rr_cache' and seg.effs('UNBIND'):
+                        from rules_policy import check_rr_remove
+                        check_rr_remove(res, prop, cm, roles, m, seg)
                     # erased slots return to the free side so that the next insert re-uses them instead of evicting
                     if roles.order is not None and seg.effs('UNBIND') and not any(s2.effs('PART', 'BIND', 'UNBIND', 'CNT') for lp, ss in seg.loops for s2 in ss):
                         from rules_pos import simulate
